@@ -760,6 +760,16 @@ def exit_coverage(facts, summ, fn, op_pred, pred, key):
                     nd = fn.nodes[x]
                     if nd.get('k') == 'var' and nd.get('v') in named:
                         (on_exc if dismisses(m) else always).append((pos, named[nd['v']]))
+    # local objects with a destructor that (conditionally) runs the epilogue: a hand-written scope guard.  The automatic
+    # destructor runs on every exit of the scope, normal or exceptional, once the object is constructed
+    for pos, s, node in fn.stmt_elems(('decl',)):
+        for v in node['vars']:
+            dts = [e for b, i, e in fn.iter_elems() if isinstance(e, dict) and e.get('d') == 'auto' and e.get('v') == v['v']]
+            for e in dts:
+                g = facts.fns.get(e.get('fn'))
+                if g is not None and may(g):
+                    always.append((pos, g))
+                    break
     ops = []                      # (position in fn, node or None)
     for b, i, e in fn.iter_elems():
         if op_pred(fn, (b, i), e):
